@@ -441,7 +441,11 @@ def compile_ast(
             )
 
             if nd.how == "left":
-                joined = df.join(joined, on="__INDEX__", how="left").drop("__INDEX__")
+                # only the columns of the right table are taken from the inner join,
+                # else the left columns would appear twice (as `<name>_right`)
+                joined = df.join(
+                    joined.select("__INDEX__", *right_df.collect_schema().names()), on="__INDEX__", how="left"
+                ).drop("__INDEX__")
 
             df = joined
 
